@@ -167,12 +167,19 @@ def lift_eigensystem(na, w, v):
 
 
 # ---------------------------------------------------------------------------
+def _frac_any(x):
+    try:
+        return _frac(x)
+    except SymError:
+        return Fraction(float(x))   # exact binary value of the double
+
+
 def exact_lstsq(na, b):
     """numpy.linalg.lstsq contract on a rational design matrix `na` (m x n) and a
     symbolic right-hand side b (m,) or (m, k): minimum-norm least-squares solution,
     residual sums (only if rank == n and m > n), exact rank, singular values (floats)."""
     m, n = na.shape
-    A = sympy.Matrix(m, n, lambda i, j: sympy.Rational(*_frac(na[i, j]).as_integer_ratio()))
+    A = sympy.Matrix(m, n, lambda i, j: sympy.Rational(*_frac_any(na[i, j]).as_integer_ratio()))
     rank = A.rank()
     P = A.pinv()   # exact Moore-Penrose inverse (rational)
     Pf = [[Fraction(int(P[i, j].p), int(P[i, j].q)) for j in range(m)] for i in range(n)]
